@@ -763,6 +763,11 @@ func (httpTransform *HTTPTransform) transformEntities(
 
 	// strip context
 	if httpTransform.SupportContext {
+		// the entity parser takes the end of the body for the end of the array: an answer that breaks off between
+		// two entities would pass as complete and the rest of the batch would never reach the sink
+		if !json.Valid(body) {
+			return nil, errors.New("transform response is not a complete json document")
+		}
 		shim := &EgdmNamespaceManagerShim{}
 		shim.nsManager = httpTransform.NamespaceManager
 		shim.localContext = egdm.NewNamespaceContext()
